@@ -149,3 +149,9 @@ package cert
 //@   ensures [inv] cinv(cache)
 //@   modifies cache.entries[*], cache.accessOrder, alloc
 //@   preserves Cache
+
+// Cache entries are created only through insert, and insert is reached only from the three
+// operations that have just obtained a verdict from impl (BatchVerify's batch digest is not
+// under contract: see the not-decided clauses of C11).
+//@ census C11 calls security/cert.(*Cache).insert within security/cert.(*Cache).Sign, security/cert.(*Cache).Verify, security/cert.(*Cache).BatchVerify
+//@ census C11 writes security/cert.Cache.entries within security/cert.NewAuthority
